@@ -336,6 +336,67 @@ func runC10(ctx *Ctx) error {
 			ctx.Res.Violate("merge-mode-carried-over", fmt.Sprintf("a document generated with old-merge-schemas and then, from the same loaded document, without it: the second output is not the default mode's (%s)", firstDiff(c17Outcome{Out: second}, c17Outcome{Out: want})), J{"doc": doc})
 		}
 	}
+	// several compositions over one base component, each making more names required — names that sort before, between and
+	// after the base's own: the base's struct and every composition's keep exactly their own required members (the base is
+	// a component of its own and a member of others, in one generation)
+	for _, nreq := range []int{3, 5, 6, 7} {
+		baseNames := []string{"id", "kind", "owner", "pool", "quota", "region", "size"}[:nreq]
+		props := J{"note": J{"type": "string"}, "alias": J{"type": "string"}, "zone": J{"type": "string"}, "label": J{"type": "string"}}
+		var req []interface{}
+		for _, nm := range baseNames {
+			props[nm] = J{"type": "string"}
+			req = append(req, nm)
+		}
+		comp := func(extra ...string) J {
+			m := J{"type": "object", "properties": J{"own": J{"type": "integer"}}}
+			if len(extra) > 0 {
+				var rq []interface{}
+				for _, e := range extra {
+					rq = append(rq, e)
+				}
+				m["required"] = rq
+			}
+			return J{"allOf": []interface{}{J{"$ref": "#/components/schemas/Resource"}, m}}
+		}
+		doc := wDoc(J{}, J{"schemas": J{"Resource": J{"type": "object", "required": req, "properties": props},
+			"Account": comp("alias"), "Bureau": comp("label", "zone"), "Team": comp(), "Zoo": comp("note")}})
+		wantReq := map[string][]string{"Resource": baseNames, "Account": append([]string{"alias"}, baseNames...), "Bureau": append([]string{"label", "zone"}, baseNames...),
+			"Team": baseNames, "Zoo": append([]string{"note"}, baseNames...)}
+		var cfg codegen.Configuration
+		cfg.PackageName = "api"
+		cfg.Generate.Models = true
+		cfg.OutputOptions.SkipPrune = true
+		ctx.Res.Eval(J{"shared-base": nreq}, true)
+		ctx.Res.Count("shared-base")
+		o := genOutcome(doc, cfg)
+		if o.Err != "" {
+			ctx.Res.Violate("shared-base:refused", "compositions over one base component are refused: "+o.Err, J{"doc": doc})
+			continue
+		}
+		f, fset, err := parseGo(o.Out)
+		if err != nil {
+			return err
+		}
+		for _, ty := range SortedKeys(wantReq) {
+			fields, _, ok := c10Shape(f, fset, ty, 0)
+			if !ok {
+				ctx.Res.Violate("shared-base:no-struct:"+ty, "no struct for "+ty, J{"doc": doc})
+				continue
+			}
+			var gotReq []string
+			for nm, fl := range fields {
+				if !fl.Pointer {
+					gotReq = append(gotReq, nm)
+				}
+			}
+			sort.Strings(gotReq)
+			want := append([]string{}, wantReq[ty]...)
+			sort.Strings(want)
+			if fmt.Sprint(gotReq) != fmt.Sprint(want) {
+				ctx.Res.Violate(fmt.Sprintf("shared-base:required:%s:%d", ty, nreq), fmt.Sprintf("%s (base with %d required names): members generated as required %v, the members some member requires %v", ty, nreq, gotReq, want), J{"doc": doc, "type": ty})
+			}
+		}
+	}
 	ctx.Res.Eval(J{"composition": "member with allOf and oneOf"}, true)
 	if unionPkg.GenErr != nil || unionPkg.BuildErr != "" {
 		ctx.Res.Violate("union-member:not-built", fmt.Sprintf("a composition over a member that has allOf and oneOf side by side is not generated or does not build: %v %s", unionPkg.GenErr, firstLines(unionPkg.BuildErr, 3)), J{"doc": unionDoc})
